@@ -183,7 +183,10 @@ ReorgRel(k, blks, expirable, P, ch, cf, P2) ==
       XD    == (Mid \ P2) \cap DescOf(X, Mid)           \* ... possibly with descendants
       OR    == Mid \ Purge(Mid, NewChain(ch, k, blks))  \* orphaned by the reorg: may (should, C12) be dropped
       OV    == OverRemoved(P, ch, k, blks)
-      E     == (((Mid \ P2) \ XD) \ OR) \ OV            \* evicted by limit_size
+      \* entries over the ancestor limit (a parent came back above them in an earlier reorg) are dropped when a detached
+      \* proposal takes them out and puts them back (remove_by_detached_proposal -> add_pending fails)
+      OL    == DescOf({ e \in Mid : AncCount(e, Mid) > cf.maxAnc }, Mid)
+      E     == ((((Mid \ P2) \ XD) \ OR) \ OV) \ OL     \* evicted by limit_size
   IN  /\ k <= Len(ch) /\ Len(blks) >= 1
       /\ Readd \subseteq cand \ P                      \* only transactions of the abandoned branch come back
       /\ E # {} => PoolSize(Mid \ XD) > cf.maxSize
